@@ -18,7 +18,21 @@ generation is known.
 
 Oracle: delivered-before ++ delivered-after == the uninterrupted run, final
 `agg_result` (and the aggregate returned with StopIteration) == the
-uninterrupted run's.
+uninterrupted run's; the uninterrupted run itself == a model of the source
+written with list slices (`model_rows`: which rows a shard path / round-robin
+shard / unreadable element leaves).
+
+Two classes of source length.  *Short* sources (n <= 5..7) with every cut
+vector, and *long* sources: the random-access iterator behind
+SequenceDataSource reads ahead W = `iter_utils._RANDOM_ACCESS_BATCH_SIZE` (64)
+elements at a time and falls back to windows of W/4, W/16, 1 after an
+unreadable element, so sources of W-1, W, W+1, W+36, 2W+1, 2W+2 rows (shards
+of 2W+2 and 3W+3: non-last shards longer than W and not a multiple of W) are
+cut at 0, 1, jW-1, jW, jW+1, len-1, len and next to sub-sequence boundaries /
+the unreadable element, *relative to the last restore* (a restored iterator
+starts its windows at the restore offset).  The other window constants of
+iter_utils (_MAX_BATCH_SIZE = 4096 of IteratorQueue, buffer_size = 3 *
+num_threads) only exist with worker threads (harness 'threads').
 
 Only `num_threads == 0` is built here.  `NUM_THREADS` / `_Executor` are the
 seam for the threaded configurations: they must be driven by the deterministic
@@ -307,6 +321,108 @@ def _take(it, c):
   return out
 
 
+# --------------------------------------------------------------------------
+# model of the sources (lists and integer arithmetic only)
+# --------------------------------------------------------------------------
+
+def _model_range(n, path):
+  """[start, end) of the rows a shard path selects out of n rows."""
+  start, end = 0, n
+  for i, k, off in path:
+    q, r = divmod(end - start, k)
+    first = start + i * q + min(i, r)
+    start, end = first + off, first + q + (1 if i < r else 0)
+  return start, max(start, end)
+
+
+def model_rows(spec, make_shard=None):
+  """-> (rows an uninterrupted run delivers, marks).
+
+  marks: positions (number of rows delivered before) at which the source
+  changes: a sub-sequence boundary, the unreadable element.
+  """
+  kind = spec[0]
+  if kind == 'iter':
+    _, n, _, shard = spec
+    assert make_shard is None
+    i, k = shard or (0, 1)
+    return [val(j) for j in range(n) if j % k == i], ()
+  if kind == 'seq':
+    _, split, path = spec
+    n, bad = sum(split), None
+    bounds = list(itt.accumulate(split))[:-1]
+  else:
+    _, n, bad, path = spec
+    bounds = []
+  if make_shard:
+    path = tuple(path) + ((make_shard[0], make_shard[1], 0),)
+  start, end = _model_range(n, path)
+  rows = [val(j) for j in range(start, end) if j != bad]
+  marks = {b - start for b in bounds if start < b < end}
+  if bad is not None and start <= bad < end:
+    marks.add(bad - start)
+  return rows, tuple(sorted(marks))
+
+
+def read_ahead_window():
+  """The library's read-ahead size: a parameter of the space, not the oracle."""
+  from ml_metrics._src.utils import iter_utils
+  return int(getattr(iter_utils, '_RANDOM_ACCESS_BATCH_SIZE', 0)) or 64
+
+
+def _long_cuts(rem, marks, window):
+  """How many elements to consume next when `rem` are left (long sources)."""
+  pts = {0, 1, rem - 1, rem}
+  for j in (1, 2):
+    pts |= {j * window - 1, j * window, j * window + 1}
+  for m in marks:
+    pts |= {m - 1, m, m + 1}
+  return sorted(p for p in pts if 0 <= p <= rem)
+
+
+def _long_cut_vectors(length, marks, max_gen, window, min_gen=1):
+  """Cut vectors of a long source: every ci out of _long_cuts, relative to the
+
+  position of the previous checkpoint (where the restored iterator starts its
+  read-ahead windows)."""
+  out = []
+
+  def rec(prefix, pos):
+    if len(prefix) >= min_gen:
+      out.append(tuple(prefix))
+    if len(prefix) == max_gen:
+      return
+    for c in _long_cuts(length - pos, [m - pos for m in marks], window):
+      rec(prefix + [c], pos + c)
+
+  rec([], 0)
+  return out
+
+
+def _long_histories(length, marks, gens, transports, vias, window):
+  """Generation 1: the full product; later generations: state as object
+
+  (and, with later_drained == (False,), the checkpointed iterator abandoned).
+  """
+  min_gen, max_gen, later_drained = gens
+  for cuts in _long_cut_vectors(length, marks, max_gen, window, min_gen):
+    first = len(cuts) == 1
+    for transport, via, old in itt.product(
+        transports if first else transports[:1], vias,
+        (False, True) if first else later_drained):
+      yield (cuts, transport, via, old)
+
+
+def _reference_clause(st, driver, case, got, rows):
+  """The uninterrupted run delivers what the model of the source says."""
+  sym = _symptom(got, rows)
+  if sym:
+    st.violation(
+        f'C10:{driver}:uninterrupted-run-differs-from-reference:{sym}',
+        {'case': case, 'got': got, 'expected': rows})
+  return sym
+
+
 def check_source_history(st, spec, expected, hist, num_threads=0):
   """One checkpoint history on a data source iterator."""
   cuts, transport, via, old_continues = hist
@@ -404,15 +520,23 @@ def _hist_dict(hist):
 
 
 def _source_unit(args):
-  specs, gens, transports, want_sample = args
+  specs, gens, transports, window, want_sample = args
   st = Stats()
   with _Deadline(240):
     for spec in specs:
       _, node = build_source(spec)
       expected = list(node.iterate())      # the uninterrupted run
+      rows, marks = model_rows(spec)
+      _reference_clause(st, _source_driver(spec), ('source', spec), expected,
+                        rows)
       for nt in NUM_THREADS:
         last = None
-        for hist in _histories(len(expected), gens, transports, SOURCE_VIAS):
+        if window:     # long source: cuts at / around the read-ahead windows
+          hists = _long_histories(len(expected), marks, gens, transports,
+                                  SOURCE_VIAS, window)
+        else:
+          hists = _histories(len(expected), gens, transports, SOURCE_VIAS)
+        for hist in hists:
           last = (hist, check_source_history(st, spec, expected, hist, nt))
         if want_sample and last and len(expected) >= 2 and len(
             st.samples) < 3:
@@ -621,10 +745,7 @@ def _uninterrupted(st, pspec, num_threads):
   it = _make_iter(t, spec, make_shard)
   out, returned = _drain(it)
   agg = _agg_result(it)
-  if make_shard:
-    rows = list(node.shard(*make_shard))
-  else:
-    rows = list(node)
+  rows, _ = model_rows(spec, make_shard)    # not the library's own listing
   exp = ref(rows)
   if out != exp:
     st.violation('C10:pipeline:uninterrupted-run-differs-from-'
@@ -632,15 +753,28 @@ def _uninterrupted(st, pspec, num_threads):
   return t, (out, agg, returned)
 
 
+def _out_marks(shape, spec, make_shard):
+  """Marks of the source in units of delivered outputs (batch(2): halves)."""
+  _, marks = model_rows(spec, make_shard)
+  per = 2 if shape == 'batch-agg' else 1
+  return tuple(sorted({m // per for m in marks}))
+
+
 def _pipeline_unit(args):
-  pspecs, gens, transports, want_sample = args
+  pspecs, gens, transports, window, want_sample = args
   st = Stats()
   with _Deadline(240):
     for pspec in pspecs:
       for nt in NUM_THREADS:
         t, full = _uninterrupted(st, pspec, nt)
         last = None
-        for hist in _histories(len(full[0]), gens, transports, PIPE_VIAS):
+        if window:     # long source: cuts at / around the read-ahead windows
+          per = 2 if pspec[0] == 'batch-agg' else 1
+          hists = _long_histories(len(full[0]), _out_marks(*pspec), gens,
+                                  transports, PIPE_VIAS, window // per)
+        else:
+          hists = _histories(len(full[0]), gens, transports, PIPE_VIAS)
+        for hist in hists:
           last = (hist, check_pipeline_history(st, pspec, t, full, hist, nt))
         if want_sample and last and len(full[0]) >= 2 and len(
             st.samples) < 3:
@@ -733,6 +867,102 @@ def pipeline_specs(max_n, thorough):
   return out
 
 
+# --------------------------------------------------------------------------
+# long sources: longer than the read-ahead window of the random-access iterator
+# --------------------------------------------------------------------------
+
+def long_lengths(w, thorough):
+  """W-1, W, W+1, a length in no relation to W, two windows + 1 / + 2."""
+  out = [w - 1, w, w + 1, w + 36, 2 * w + 1, 2 * w + 2]
+  if thorough:
+    out += [2 * w - 1, 2 * w, 3 * w + 1]
+  return sorted(out)
+
+
+def _long_bad(lo, hi, w):
+  """Unreadable rows of [lo, hi): next to the start of every read-ahead window
+
+  of the range and 1, W/16, W/4 (the fall-back windows) rows into it."""
+  out = set()
+  for ws in range(lo, hi, w):
+    for d in (-1, 0, 1, w // 16 - 1, w // 16, w // 4 - 1, w // 4, w // 4 + 1):
+      out.add(ws + d)
+  out |= {hi - 1}
+  return sorted(b for b in out if lo <= b < hi)
+
+
+def long_source_specs(w, thorough):
+  specs = []
+  two, three = 2 * w + 2, 3 * w + 3
+  for n in long_lengths(w, thorough):
+    specs.append(('seq', (n,), ()))
+    for i in range(2):
+      for off in (0, 1):
+        specs.append(('seq', (n,), ((i, 2, off),)))
+    for container in ('list', 're-iterable'):
+      specs.append(('iter', n, container, None))
+  # restore offsets given by hand, at and around a window end
+  for i in range(2):
+    for off in (w - 1, w, w + 1):
+      specs.append(('seq', (two,), ((i, 2, off),)))
+  # three shards of W+1; nested: the halves of a half
+  for i in range(3):
+    specs.append(('seq', (three,), ((i, 3, 0),)))
+  nested_n = (2 * two,) + ((2 * two + 1, 2 * two + 3) if thorough else ())
+  for n in nested_n:
+    for i, i2 in itt.product(range(2), range(2)):
+      for off, off2 in ((0, 0), (1, 1)) if thorough else ((0, 0),):
+        specs.append(('seq', (n,), ((i, 2, off), (i2, 2, off2))))
+  # sub-sequences longer than the window / ending next to a window end
+  for n in (w + 1, two) + ((w + 36,) if thorough else ()):
+    firsts = {0, 1, w - 1, w, w + 1, w + 2, n - w - 1, n - w, n - 1, n}
+    for a in sorted(f for f in firsts if 0 <= f <= n):
+      specs.append(('seq', (a, n - a), ()))
+      if n == two:
+        for i in range(2):
+          specs.append(('seq', (a, n - a), ((i, 2, 0),)))
+  for split in ((w + 1, 0, w + 1), (w, 1, w + 1), (1, w + 1, w)):
+    specs.append(('seq', split, ()))
+    for i in range(2):
+      specs.append(('seq', split, ((i, 2, 0),)))
+  # one unreadable element (ignore_error): the fall-back windows W/4, W/16, 1
+  for n in (w + 1, two):
+    for bad in _long_bad(0, n, w):
+      specs.append(('seq-ignore', n, bad, ()))
+  half = two // 2
+  for i in range(2):
+    for bad in _long_bad(i * half, (i + 1) * half, w):
+      specs.append(('seq-ignore', two, bad, ((i, 2, 0),)))
+  for i in range(2):
+    specs.append(('iter', two, 'list', (i, 2)))
+  if thorough:
+    for i in range(3):
+      specs.append(('iter', three, 're-iterable', (i, 3)))
+  return [s for s in dict.fromkeys(specs) if _valid(s)]
+
+
+def long_pipeline_specs(w, thorough):
+  out = []
+  two = 2 * w + 2
+  srcs = [('seq', (w + 1,), ()),
+          ('seq', (two,), ((0, 2, 0),)),       # non-last shard of W+1 rows
+          ('seq', (two,), ((1, 2, 1),)),       # exactly one window left
+          ('seq', (w + 1, 1), ()),             # a sub-sequence of W+1 rows
+          ('iter', two, 'list', (1, 2))]
+  if thorough:
+    srcs += [('seq', (w + 36,), ()), ('seq', (two,), ()),
+             ('seq', (two,), ((1, 2, 0),)), ('seq', (3 * w + 3,), ((1, 3, 0),)),
+             ('seq', (2 * two,), ((0, 2, 0), (0, 2, 0))),
+             ('seq', (1, w + 1, w), ((0, 2, 0),)), ('iter', w + 1, 'list', None)]
+  for shape in SHAPES:
+    for s in srcs:
+      out.append((shape, s, None))
+    if not shape.startswith('chain-'):
+      for i in range(2 if thorough else 1):
+        out.append((shape, ('seq', (two,), ()), (i, 2)))
+  return out
+
+
 def run(ctx):
   quick = ctx.quick
   only = getattr(ctx, 'only', None) or HARNESSES
@@ -742,6 +972,10 @@ def run(ctx):
   n_src4, n_pipe4 = (0, 0) if quick else (5, 4)    # 4-generation histories
   transports = TRANSPORTS
   pipe_transports = ('object', 'pickler') if quick else TRANSPORTS
+  w = read_ahead_window()
+  long_gens = (1, 2, (False,)) if quick else (1, 3, (False, True))
+  later = ' and the checkpointed iterator abandoned' if quick else ''
+  ctx.notes['read_ahead_window'] = w
   four = '' if quick else (
       f'; additionally every 4-generation cut vector for sources n<={n_src4} '
       f'and pipelines n<={n_pipe4}')
@@ -757,7 +991,30 @@ def run(ctx):
       f'drained; pipelines: n<={n_pipe}, shapes {list(SHAPES)} over unsharded/'
       'sharded(+offset)/nested/two-sub-sequence/ShardedIterable sources and '
       f'make(shard=), same histories with state as {list(pipe_transports)}, '
-      f'restored on the iterator/a fresh make().iterate(){four}; num_threads=0; '
+      f'restored on the iterator/a fresh make().iterate(){four}; '
+      f'LONG sources (read-ahead window W={w} of the random-access iterator, '
+      'fall-back windows W/4, W/16, 1): SequenceDataSource of '
+      f'{long_lengths(w, not quick)} rows unsharded / halved with offset 0..1 '
+      f'(shards of {w + 1} rows: longer than W, not a multiple of W, not the '
+      f'tail), {2 * w + 2} rows halved with offset W-1..W+1, {3 * w + 3} rows '
+      f'in 3 shards, {4 * w + 4} rows nested 2x2, two sub-sequences of '
+      f'{w + 1} and {2 * w + 2} rows cut at 0/1/W-1..W+2/n-W-1/n-W/n-1/n '
+      '(unsharded and halved) and three sub-sequences, one unreadable '
+      f'element (ignore_error) in {w + 1} and {2 * w + 2} rows (unsharded, '
+      'halved) at -1/0/1/W/16-1/W/16/W/4-1/W/4/W/4+1 rows from every window '
+      'start and at the last row, ShardedIterable of the same lengths and '
+      'round-robin halves; cut vectors of long sources: every ci in {0, 1, '
+      'W-1, W, W+1, 2W-1, 2W, 2W+1, rest-1, rest, next to a sub-sequence '
+      'boundary / the unreadable element}, counted from the previous '
+      f'checkpoint, g<={long_gens[1]}; generation 1 with every transport x '
+      'restore route x abandoned/drained, later generations with the state as '
+      f'object{later}; pipelines over long sources: every shape over '
+      f'{w + 1} rows '
+      f'unsharded / shard 0 of 2 of {2 * w + 2} / shard 1 of 2 with offset 1 '
+      f'(exactly W left) / sub-sequences ({w + 1}, 1) / round-robin half of '
+      f'{2 * w + 2} / make(shard=(0, 2)) of {2 * w + 2}, cuts as above in '
+      'units of delivered outputs (batch(2): W/2); every uninterrupted run is '
+      'compared with a list-slice model of the source; num_threads=0; '
       'plus 42 threaded configurations (E1, num_threads 1-2); non-trivial = the uninterrupted run delivers >= 1 element; '
       'distinct = distinct (source, pipeline shape, cut vector, transport, '
       'restore route, continue flag)')
@@ -766,28 +1023,43 @@ def run(ctx):
       'shardable / round-robin source, with and without aggregate) under the '
       'deterministic scheduler, bounded per configuration (cap reported)',
       'the uninterrupted run of the same configuration is the oracle; it is '
-      'cross-checked against a list comprehension for pipelines',
+      'cross-checked against a list-slice model of the source (and a list '
+      'comprehension over it for pipelines)',
+      'long sources are not run with worker threads (a scheduler step per '
+      'element); _MAX_BATCH_SIZE=4096 and buffer_size=3*num_threads are '
+      'windows of the threaded iterators only',
       'offsets larger than the shard are outside the quantifier',
       'aggregates: full history list, and an in-place (sum, count) object',
   ]
   if 'source' in only:
     specs = source_specs(n_src, not quick)
     ctx.notes['source_configurations'] = len(specs)
-    units = [(u, (1, max_gen), transports) for u in
+    units = [(u, (1, max_gen), transports, 0) for u in
              enums.chunks(ctx.shuffled(specs), 128)]
     if n_src4:
-      units += [(u, (4, 4), transports) for u in enums.chunks(
+      units += [(u, (4, 4), transports, 0) for u in enums.chunks(
           ctx.shuffled(source_specs(n_src4, True)), 64)]
-    ctx.pmap(_source_unit, [u + (i == 0,) for i, u in enumerate(units)])
+    lspecs = long_source_specs(w, not quick)
+    ctx.notes['long_source_configurations'] = len(lspecs)
+    # a long configuration costs about as much as 100 short ones
+    lunits = [(u, long_gens, transports, w, False) for u in enums.chunks(
+        ctx.shuffled(lspecs), max(1, len(lspecs) // 3))]
+    ctx.pmap(_source_unit, lunits + [
+        u + (i == 0,) for i, u in enumerate(units)])
   if 'pipeline' in only:
     pspecs = pipeline_specs(n_pipe, not quick)
     ctx.notes['pipeline_configurations'] = len(pspecs)
-    units = [(u, (1, max_gen), pipe_transports) for u in
+    units = [(u, (1, max_gen), pipe_transports, 0) for u in
              enums.chunks(ctx.shuffled(pspecs), 128 if quick else 256)]
     if n_pipe4:
-      units += [(u, (4, 4), pipe_transports) for u in enums.chunks(
+      units += [(u, (4, 4), pipe_transports, 0) for u in enums.chunks(
           ctx.shuffled(pipeline_specs(n_pipe4, True)), 64)]
-    ctx.pmap(_pipeline_unit, [u + (i == 0,) for i, u in enumerate(units)])
+    lpspecs = long_pipeline_specs(w, not quick)
+    ctx.notes['long_pipeline_configurations'] = len(lpspecs)
+    lunits = [(u, long_gens, pipe_transports, w, False) for u in
+              enums.chunks(ctx.shuffled(lpspecs), max(1, len(lpspecs) // 2))]
+    ctx.pmap(_pipeline_unit, lunits + [
+        u + (i == 0,) for i, u in enumerate(units)])
   if 'threads' in only:
     from vmc import explorer
     tc = threaded_configs(quick)
